@@ -1,9 +1,11 @@
 package app
 
 import (
+	"errors"
 	"time"
 
 	nodestate "github.com/yandex/mysync/internal/app/node_state"
+	"github.com/yandex/mysync/internal/dcs"
 	"github.com/yandex/mysync/internal/mysql"
 	"github.com/yandex/mysync/internal/util"
 )
@@ -132,6 +134,13 @@ func (app *App) FinishSwitchover(switchover *Switchover, switchErr error) error 
 		path = pathLastRejectedSwitch
 	}
 
+	if !app.isCurrentSwitchover(switchover) {
+		// aborted (and possibly replaced by a new request) while we were working on it:
+		// the abort is its outcome, there is nothing to delete or record
+		app.logger.Warn().Msgf("switchover: %s => %s is not the pending request any more, not recording it as %s", switchover.From, switchover.To, action)
+		return nil
+	}
+
 	app.logger.Info().Msgf("switchover: %s => %s %s", switchover.From, switchover.To, action)
 	switchover.Result = new(SwitchoverResult)
 	switchover.Result.Ok = result
@@ -163,12 +172,26 @@ func (app *App) FinishSwitchover(switchover *Switchover, switchErr error) error 
 // Kept on *App for symmetry with FinishSwitchover and StartSwitchover.
 func (app *App) FailSwitchover(switchover *Switchover, err error) error {
 	app.logger.Error().Err(err).Msgf("switchover: %s => %s failed", switchover.From, switchover.To)
+	if !app.isCurrentSwitchover(switchover) {
+		// aborted meanwhile: do not write it back over nothing or over a new request
+		return nil
+	}
 	switchover.RunCount++
 	switchover.Result = new(SwitchoverResult)
 	switchover.Result.Ok = false
 	switchover.Result.Error = err.Error()
 	switchover.Result.FinishedAt = time.Now()
 	return app.appDCS.SetCurrentSwitchover(switchover)
+}
+
+// isCurrentSwitchover tells whether switchover is still the request stored in ZK
+func (app *App) isCurrentSwitchover(switchover *Switchover) bool {
+	current := new(Switchover)
+	if err := app.appDCS.GetCurrentSwitchover(current); err != nil {
+		// not found: aborted; other errors: let the caller's own ZK calls report them
+		return !errors.Is(err, dcs.ErrNotFound)
+	}
+	return isSameSwitchover(current, switchover)
 }
 
 // StartSwitchover records that a switchover has started.
